@@ -14,11 +14,11 @@ from .model_driver import PALETTES, ModelDriver
 CONSTS = {"Bug": "none"}
 SUBST = {"RxSeq": "RxSeq8", "MetSeq": "MetSeq4", "GeneSeq": "GeneSeq4", "GrpSeq": "GrpSeq1"}
 
-PROFILE = {"C01": ["edit"], "C02": ["edit"], "C03": ["ctx"], "C07": ["ko", "ctx"], "C12": ["copy"],
+PROFILE = {"C01": ["edit"], "C02": ["edit"], "C03": ["ctx"], "C07": ["ko"], "C12": ["copy"],
            "C13": ["analyze"], "C10": ["io"], "C11": ["io"]}
 TIERS = {
-    "quick": {"edit": (1200, 14), "ctx": (1200, 16), "ko": (600, 12), "copy": (900, 14), "analyze": (260, 9),
-              "io": (700, 10), "palettes": 2},
+    "quick": {"edit": (700, 14), "ctx": (700, 16), "ko": (700, 12), "copy": (600, 14), "analyze": (220, 9),
+              "io": (600, 10), "palettes": 2},
     "thorough": {"edit": (20000, 18), "ctx": (20000, 20), "ko": (8000, 14), "copy": (15000, 16), "analyze": (2500, 10),
                  "io": (9000, 12), "palettes": 3},
 }
@@ -225,6 +225,16 @@ def run(prop, tier, replay=None):
     # negative control (design level): a knock-out rule that zeroes every reaction of the gene must violate
     # the order/batch theorem
     controls = {}
+    if prop == "C03":
+        # design level: the undo-log mechanism refines "exit restores the snapshot" for every history with
+        # nesting <= 3 (UndoLog.tla); the pinned tree's behaviour (undo functions recording into the enclosing
+        # context) is the negative control and must be rejected
+        r = C.run_tlc("UndoLog", os.path.join(C.SPECS, "MC_UndoLog.cfg"), wd, timeout=900)
+        rep.add_design(r)
+        r = C.run_tlc("UndoLog", os.path.join(C.SPECS, "MC_UndoLog_neg.cfg"), wd, timeout=900, expect_violation=True)
+        controls["undo_rerecords_into_enclosing_context"] = r["error"]
+        if not r["error"]:
+            raise C.Machinery("negative control UndoLog(Hide=FALSE) not rejected")
     if prop in ("C07",):
         r = tlc_walks(wd, rep, "ko", 200, 10, sd, emit=False, bug="ko_any_gene", expect_violation=True)
         controls["ko_any_gene"] = r["error"]
